@@ -58,7 +58,7 @@ pub fn run_case(case: &AxCase, arch: Arch, info: &ArchInfo, heap_monitor: bool) 
 
 /// Output of the repository's own pipeline (as opposed to programs built by this harness)?
 pub fn is_pipeline_output(name: &str) -> bool {
-    name.starts_with("fun/") || name.starts_with("nl/") || name.starts_with("core/")
+    ["fun/", "nl/", "core/", "funpad/", "nlpad/", "corepad/"].iter().any(|p| name.starts_with(p))
 }
 
 /// `require_linear = false` runs the program even if it violates the ordered-linear discipline
@@ -261,6 +261,14 @@ pub fn worker(ctx: &WorkerCtx, arch: Arch, mode: Mode) -> Report {
                 let case = AxCase { name: format!("fun/{}", fc.name), prog: st.linear.clone(), args: input.clone(), uses_print: true };
                 handle(case);
             }
+            // the same program with k padding variables live throughout (generate/axpad.rs)
+            for k in pad_sizes(arch, ctx.tier.thorough(), hash64(&fc.name) % 2) {
+                if let Some(lin) = padded_linear(&st.shrunk, k) {
+                    for input in fc.inputs.iter().take(if ctx.tier.thorough() { 2 } else { 1 }) {
+                        handle(AxCase { name: format!("funpad/{k}/{}", fc.name), prog: lin.clone(), args: input.clone(), uses_print: true });
+                    }
+                }
+            }
         };
         let mut fsink = FunSink { idx: 0, shard: ctx.shard, n: ctx.nshards, f: &mut fh };
         all_fun_families(&fcfg, &mut fsink);
@@ -276,6 +284,13 @@ pub fn worker(ctx: &WorkerCtx, arch: Arch, mode: Mode) -> Report {
             }
             if let Some(case) = nl_to_case(&nc) {
                 handle(case);
+            }
+            for k in pad_sizes(arch, ctx.tier.thorough(), idx % 2) {
+                if let Some(lin) = padded_linear(&nc.prog, k) {
+                    use printer::Print;
+                    let uses_print = lin.print_to_string(None).contains("print");
+                    handle(AxCase { name: format!("nlpad/{k}/{}", nc.name), prog: lin, args: nc.args.clone(), uses_print });
+                }
             }
         };
         crate::generate::axnl::enumerate(n_max, &mut nh);
@@ -297,6 +312,16 @@ pub fn worker(ctx: &WorkerCtx, arch: Arch, mode: Mode) -> Report {
                     if let Some(prog) = core_to_linear(s, core_print) {
                         for input in [0i64, 3] {
                             handle(AxCase { name: format!("core/{aname}/n{size}/{i}"), prog: prog.clone(), args: vec![input], uses_print: core_print });
+                        }
+                    }
+                    // (quick tier: the padded G-CORE slice runs in the semantics mode only; the heap and
+                    // calling-convention modes pad the Fun and statement-space outputs)
+                    if !ctx.tier.thorough() && mode != Mode::Semantics {
+                        continue;
+                    }
+                    for k in pad_sizes(arch, ctx.tier.thorough(), idx) {
+                        if let Some(prog) = core_to_shrunk(s, core_print).and_then(|sh| padded_linear(&sh, k)) {
+                            handle(AxCase { name: format!("corepad/{k}/{aname}/n{size}/{i}"), prog, args: vec![3], uses_print: core_print });
                         }
                     }
                 }
@@ -331,11 +356,32 @@ fn core_sizes(thorough: bool, with_print: bool) -> Vec<(&'static str, crate::gen
     ]
 }
 
-fn core_to_linear(s: &crate::generate::corefam::S, final_print: bool) -> Option<axcut::syntax::Prog> {
+fn core_to_shrunk(s: &crate::generate::corefam::S, final_print: bool) -> Option<axcut::syntax::Prog> {
     let prog = crate::generate::corefam::program_with(s, final_print);
     let focused = crate::pipeline::focus(prog).ok()?;
-    let shrunk = crate::pipeline::shrink(focused).ok()?;
-    crate::pipeline::linearize(shrunk).ok()
+    crate::pipeline::shrink(focused).ok()
+}
+
+fn core_to_linear(s: &crate::generate::corefam::S, final_print: bool) -> Option<axcut::syntax::Prog> {
+    crate::pipeline::linearize(core_to_shrunk(s, final_print)?).ok()
+}
+
+/// Padding sizes for one pipeline output: 5 puts the program's own variables across the x86-64
+/// register/spill boundary (and is the only size the RV64 register file can hold), 12 across the
+/// AArch64 one. The quick tier pads a slice of the programs, the thorough tier all of them.
+pub fn pad_sizes(arch: Arch, thorough: bool, key: u64) -> Vec<usize> {
+    let mut v = vec![];
+    if thorough || key % 4 == 0 {
+        v.push(5);
+    }
+    if arch != Arch::Rv64 && (thorough || key % 8 == 1) {
+        v.push(12);
+    }
+    v
+}
+
+pub fn padded_linear(shrunk: &axcut::syntax::Prog, k: usize) -> Option<axcut::syntax::Prog> {
+    crate::pipeline::linearize(crate::generate::axpad::pad_prog(shrunk, k)?).ok()
 }
 
 /// Re-executes one recorded case by name (no explorer).
@@ -388,6 +434,58 @@ pub fn replay(case: &serde_json::Value) -> Option<(String, Verdict)> {
                     }
                 }
             }
+        }
+    }
+    // padded pipeline outputs: <kind>pad/<k>/<name of the unpadded case>
+    for kind in ["fun", "nl", "core"] {
+        let Some(rest) = name.strip_prefix(&format!("{kind}pad/")) else { continue };
+        let Some((k, inner)) = rest.split_once('/') else { continue };
+        let Ok(k) = k.parse::<usize>() else { continue };
+        let args: Vec<i64> = case["args"].as_array().map(|a| a.iter().filter_map(|x| x.as_i64()).collect()).unwrap_or_default();
+        let mut shrunk: Option<axcut::syntax::Prog> = None;
+        let mut uses_print = true;
+        match kind {
+            "fun" => {
+                use crate::generate::funfam::{all_fun_families, FunCase, FunCfg, FunSink};
+                let fcfg = FunCfg { thorough: true, small_max: 0, with_unsequenced: true };
+                let mut fh = |fc: FunCase| {
+                    if fc.name == inner && shrunk.is_none() {
+                        if let Ok(st) = crate::pipeline::all_stages(&fc.src) {
+                            shrunk = Some(st.shrunk);
+                        }
+                    }
+                };
+                let mut fsink = FunSink { idx: 0, shard: 0, n: 1, f: &mut fh };
+                all_fun_families(&fcfg, &mut fsink);
+            }
+            "nl" => {
+                let mut nh = |nc: crate::generate::axnl::NlCase| {
+                    if nc.name == inner && shrunk.is_none() {
+                        shrunk = Some(nc.prog.clone());
+                    }
+                };
+                crate::generate::axnl::enumerate(4, &mut nh);
+                crate::generate::axnl::enumerate_invoke(5, &mut nh);
+            }
+            _ => {
+                let parts: Vec<&str> = inner.split('/').collect();
+                if parts.len() == 3 {
+                    if let (Ok(size), Ok(index)) = (parts[1].trim_start_matches('n').parse::<usize>(), parts[2].parse::<usize>()) {
+                        let np = parts[0].ends_with("-np");
+                        uses_print = !np;
+                        if let Some((_, alpha, _)) = core_sizes(true, !np).into_iter().find(|(n, _, _)| *n == parts[0]) {
+                            let mut e = crate::generate::corefam::Enum::new(alpha);
+                            let all = e.stmts(crate::generate::corefam::initial_scope(), size);
+                            shrunk = all.get(index).and_then(|st| core_to_shrunk(st, !np));
+                        }
+                    }
+                }
+            }
+        }
+        if let Some(lin) = shrunk.and_then(|sh| padded_linear(&sh, k)) {
+            use printer::Print;
+            let up = uses_print && lin.print_to_string(None).contains("print");
+            found = Some(AxCase { name: name.clone(), prog: lin, args, uses_print: up });
         }
     }
     for tier in [Tier::Quick, Tier::Thorough] {
